@@ -295,6 +295,46 @@ theorem stage1_rows (cfg : Cfg) (hns : cfg.sortGroupsByLabel = false) (train : T
   refine ⟨fun k hk => Nat.lt_of_lt_of_le (fitted_labels_bounded col w.comb hcov k hk) hle, ?_⟩
   exact fitted_groups_frequent cfg hns train.rows col w.comb hc hcov (viable_train hv).1
 
+/-- a placement of the missing-value modality in a cut of distinct leaders covers every column made of these labels -/
+theorem covers_of_nanPlacement {leaders : List String} {nan : String} {m : Nat} {comb : List (List String)} {col : List String}
+    (hmem : comb ∈ nanCombinations leaders nan m) (hnd : (nan :: leaders).Nodup) (hcol : ∀ v ∈ col, v ∈ nan :: leaders) :
+    Covers comb col := by
+  obtain ⟨c0, ⟨hcut, _, _⟩, h⟩ := (nanCombinations_iff leaders nan m comb).1 hmem
+  have hperm : comb.flatten.Perm (nan :: leaders) := by
+    rcases h with ⟨n, hn, rfl⟩ | ⟨_, rfl⟩
+    · have := addAt_flatten_perm nan n c0 hn
+      rwa [hcut.1] at this
+    · rw [List.flatten_append, hcut.1]
+      simp only [List.flatten_cons, List.flatten_nil, List.append_nil]
+      exact List.perm_append_comm
+  refine ⟨hperm.nodup_iff.2 hnd, ?_, fun v hv => hperm.mem_iff.2 (hcol v hv)⟩
+  rcases h with ⟨n, _, rfl⟩ | ⟨_, rfl⟩
+  · exact addAt_nonempty nan n c0 hcut.2
+  · intro g hg
+    rcases List.mem_append.1 hg with hg | hg
+    · exact hcut.2 g hg
+    · simp only [List.mem_singleton] at hg; subst hg; simp
+
+/-- **Stage 2, on the rows** (`dropna=True`: the missing values are given a group).  Whatever placement of the
+    missing-value modality the second search returns, the transformed training column (rows ↦ index of the group holding
+    their stage-1 leader, or the missing-value marker) has at most `max_n_mod` distinct values, none of them missing, each
+    carried by at least `min_freq_mod` of all the rows. -/
+theorem stage2_rows (cfg : Cfg) (hns : cfg.sortGroupsByLabel = false) (train : Table) (dev : Option (List (String × Row)))
+    (leaders : List String) (nan : String) (hnd : (nan :: leaders).Nodup) (col : List String)
+    (hcol : ∀ v ∈ col, v ∈ nan :: leaders) (hc : Counts train.rows col) (ws : List Cand) (dropOk : Bool)
+    (h : search (candidates cfg train dev (nanCombinations leaders nan cfg.maxNMod)) 0 = .best ws dropOk) :
+    ∀ w ∈ ws, (∀ k ∈ col.map (groupIdx w.comb), k < cfg.maxNMod) ∧
+      ∀ i, i < w.comb.length →
+        cfg.minFreqMod * ((col.length : Nat) : Rat) ≤ (((col.map (groupIdx w.comb)).count i : Nat) : Rat) := by
+  intro w hw
+  have hle := stage2_group_count cfg train dev leaders nan ws dropOk h w hw
+  obtain ⟨hc', hv, _⟩ := search_best_sound _ ws dropOk h w hw
+  obtain ⟨hmem, hveq⟩ := mem_candidates hc'
+  rw [hveq] at hv
+  have hcov := covers_of_nanPlacement hmem hnd hcol
+  refine ⟨fun k hk => Nat.lt_of_lt_of_le (fitted_labels_bounded col w.comb hcov k hk) hle, ?_⟩
+  exact fitted_groups_frequent cfg hns train.rows col w.comb hc hcov (viable_train hv).1
+
 /-! ## Non-vacuity -/
 private def t0 : List (String × Row) :=
   [("a", ⟨10, 1, 0, false⟩), ("b", ⟨10, 5, 0, false⟩), ("c", ⟨10, 9, 0, false⟩)]
